@@ -67,15 +67,18 @@ def lookupKey (keyStr : Rat → String) : Val → CKey
   | .num q => .s (keyStr q)
   | .inf => .inf
 
+/-- one iteration of the loop of `json_deserialize_values_orders`: `content[str(value)]` of an
+    absent key is a `KeyError` -/
+def loadStep (content : List (CKey × List Val)) (lk : Val → CKey) (acc : Dict) (v : Val) : Except Err Dict :=
+  match aget? content (lk v) with
+  | some members => .ok (aset acc v members)
+  | none => .error Err.keyError
+
 /-- `json_deserialize_values_orders` for one feature -/
-def deserialize (keyStr : Rat → String) (s : Ser) : Except Err GL := do
-  let order := s.order.map numpyOf
-  let content := convContent s.content
-  let fc ← order.foldlM (fun (acc : Dict) v =>
-    match aget? content (lookupKey keyStr v) with
-    | some members => pure (aset acc v members)
-    | none => throw Err.keyError) []
-  GL.ofDict fc
+def deserialize (keyStr : Rat → String) (s : Ser) : Except Err GL :=
+  match (s.order.map numpyOf).foldlM (loadStep (convContent s.content) (lookupKey keyStr)) [] with
+  | .ok fc => GL.ofDict fc
+  | .error e => .error e
 
 /-- the whole round trip of one feature's order -/
 def roundTrip (keyStr : Rat → String) (g : GL) : Except Err GL :=
@@ -85,10 +88,19 @@ end PJson
 
 namespace Disc
 
+/-- every order through the JSON round trip (the first failure aborts the load) -/
+def reloadOrders (keyStr : Rat → String) : List (String × GL) → Except Err (List (String × GL))
+  | [] => .ok []
+  | (f, g) :: t =>
+    match PJson.roundTrip keyStr g with
+    | .error e => .error e
+    | .ok g' => (reloadOrders keyStr t).map (fun r => (f, g') :: r)
+
 /-- `load_discretizer(json.loads(json.dumps(obj.to_json())))`: every order goes through the JSON
     round trip, `BaseDiscretizer(**json)` copies the rest, `fit()` rebuilds the label table -/
-def reload (keyStr : Rat → String) (s : Disc) : Except Err Disc := do
-  let orders ← s.orders.mapM (fun fo => do pure (fo.1, ← PJson.roundTrip keyStr fo.2))
-  Disc.fit { s with orders := orders, lpv := [] }
+def reload (keyStr : Rat → String) (s : Disc) : Except Err Disc :=
+  match reloadOrders keyStr s.orders with
+  | .error e => .error e
+  | .ok orders => Disc.fit { s with orders := orders, lpv := [] }
 
 end Disc
